@@ -63,6 +63,39 @@ def jobs(tier):
                               kind="proof", functions=["op_flags", fn_name(op, mode)],
                               domain="one pixel, every (s,m,d) and every alternative value of the hinted image",
                               timeout=600, min_props=2, unwind=2))
+    # ---- float pipeline: factor table / masking / clamp (NOT real-valued accuracy)
+    FTAB = {"clear": (0, 0), "src": (1, 0), "dst": (0, 1), "over": (1, 4), "over_reverse": (5, 1), "in": (3, 0),
+            "in_reverse": (0, 2), "out": (5, 0), "out_reverse": (0, 4), "atop": (3, 4), "atop_reverse": (5, 2),
+            "xor": (5, 4), "add": (1, 1)}
+    FASSUME = ["float combiners: inputs restricted to premultiplied values in [0,1] without NaN",
+               "float combiners: the contract states the IEEE evaluation of min(1, s*Fa+d*Fb); distance to the real-valued result is NOT decided"]
+    for op, (fa, fb) in FTAB.items():
+        for mode in (0, 1, 2):
+            for ch in (0, 1, 2, 3):
+                grid = mode != 0   # masked float queries do not finish on the full domain: 5-point grid, labelled bounded
+                if tier == "quick" and (ch in (2, 3) or (mode == 0 and op not in ("over", "add", "in"))):
+                    continue
+                d = {"VC_NAME": op, "VC_FA": fa, "VC_FB": fb, "VC_MODE": mode, "VC_CH": ch}
+                if grid:
+                    d["VC_GRID"] = 1
+                js.append(Job("float.pd%s.%s.m%d.ch%d" % ("grid" if grid else "", op, mode, ch), "C01/float_pd.c", defines=d,
+                              kind="bounded" if grid else "proof",
+                              bound="every float input is one of {0, 1/4, 1/2, 3/4, 1}" if grid else "",
+                              functions=["combine_%s_%s_float" % (op, "ca" if mode == 2 else "u"), "combine_inner", "get_factor"],
+                              domain="one pixel, premultiplied (s,m,d) of 12 single-precision floats in [0,1]%s, channel %d" % (" on the 5-point grid" if grid else " (all values)", ch),
+                              timeout=1800, min_props=3, unwind=6, assumptions=FASSUME))
+    FMASK = ["hsl_hue", "hsl_saturation", "hsl_color", "hsl_luminosity", "over", "add", "multiply", "screen", "color_dodge",
+             "soft_light", "disjoint_over", "conjoint_xor", "saturate"]
+    for op in FMASK:
+        for ch in (0, 1, 2, 3):
+            if tier == "quick" and (ch in (0, 2) or op not in ("hsl_hue", "hsl_luminosity", "over", "soft_light")):
+                continue
+            js.append(Job("float.maskgrid.%s.ch%d" % (op, ch), "C01/float_mask.c",
+                          defines={"VC_FN": "combine_%s_u_float" % op, "VC_CH": ch, "VC_GRID": 1}, kind="bounded",
+                          bound="every float input is one of {0, 1/4, 1/2, 3/4, 1}",
+                          functions=["combine_%s_u_float" % op],
+                          domain="one pixel, premultiplied (s, mask alpha, d) on the 5-point grid; relational: masked == pre-masked source",
+                          timeout=1800, min_props=1, unwind=6, assumptions=FASSUME[:1]))
     for fn, op, code, mode in combos():
         pdf = code >= 14
         # loop-free, full domain, replayable: one pixel, one channel per query (+ one frame query)
